@@ -616,6 +616,7 @@ static bool same_violation(const RunResult& r, const VRec& want, bool exact_sig)
 
 struct Replay
 {
+    std::string variant;
     RunSpec spec;
     VRec expect;
     int nsteps{0};
@@ -625,6 +626,7 @@ static std::string replay_text(const Replay& rp, const RunResult& explained)
 {
     std::ostringstream os;
     os << "utapsim-replay 1\n";
+    os << "variant " << SIM_VARIANT << "\n";
     os << "profile " << rp.spec.profile << "\n";
     os << "run_seed " << rp.spec.run_seed << "\n";
     os << "thorough " << rp.spec.thorough << "\n";
@@ -660,7 +662,9 @@ static bool load_replay(const std::string& path, Replay& rp)
             continue;
         size_t sp = line.find(' ');
         std::string k = line.substr(0, sp), v = sp == std::string::npos ? "" : line.substr(sp + 1);
-        if (k == "profile")
+        if (k == "variant")
+            rp.variant = v;
+        else if (k == "profile")
             rp.spec.profile = v;
         else if (k == "run_seed")
             rp.spec.run_seed = strtoull(v.c_str(), nullptr, 10);
@@ -768,6 +772,9 @@ struct Options
     bool explain{false};
     std::string dropped;
     int simplify{0};
+    std::string nontrivial_key;  // a run counts as non-trivial when this counter is > 0 (empty: every run)
+    std::string hash_file;       // the event hashes of the non-trivial runs are appended here
+    std::string replay_tag;
 };
 
 static double now_s()
@@ -790,7 +797,8 @@ static int cmd_run(const Options& o)
     double t0 = now_s();
     std::map<std::string, uint64_t> total;
     std::vector<std::string> samples;
-    std::set<uint64_t> distinct_hashes;
+    std::set<uint64_t> distinct_hashes, nontrivial_hashes;
+    uint64_t nontrivial_runs = 0;
     std::map<std::string, int> seen_sigs;
     uint64_t started = 0, finished = 0;
     int nviol = 0, nondet = 0;
@@ -851,6 +859,10 @@ static int cmd_run(const Options& o)
                         if (samples.size() < 5)
                             samples.push_back(s);
                 distinct_hashes.insert(r.hash);
+                if (r.done && (o.nontrivial_key.empty() || (r.counters.count(o.nontrivial_key) && r.counters[o.nontrivial_key] > 0))) {
+                    ++nontrivial_runs;
+                    nontrivial_hashes.insert(r.hash);
+                }
                 total["steps"] += r.nsteps;
                 for (auto& v : r.violations) {
                     ++nviol;
@@ -904,7 +916,7 @@ static int cmd_run(const Options& o)
         rp.expect = got;
         rp.nsteps = std::max(nsteps, ex.nsteps);
         mkdir(o.replay_dir.c_str(), 0755);
-        std::string path = o.replay_dir + "/" + want.property + "-" + o.profile + "-" + std::to_string(spec.run_seed) + ".replay";
+        std::string path = o.replay_dir + "/" + want.property + "-" + o.profile + "-" + std::to_string(spec.run_seed) + "." + SIM_VARIANT + ".replay";
         {
             std::ofstream f(path);
             f << replay_text(rp, ex);
@@ -930,9 +942,9 @@ static int cmd_run(const Options& o)
     // summary
     printf("{\"type\":\"summary\",\"profile\":\"%s\",\"variant\":\"%s\",\"seed\":%llu,\"runs\":%llu,\"runs_requested\":%llu,"
            "\"violations_raw\":%d,\"distinct_violation_signatures\":%zu,\"nondeterministic\":%d,"
-           "\"distinct_run_hashes\":%zu,\"wall_s\":%.3f,\"explore_s\":%.3f,\"runs_per_hour\":%.0f,\"counters\":{",
+           "\"distinct_run_hashes\":%zu,\"nontrivial_runs\":%llu,\"distinct_nontrivial_hashes\":%zu,\"wall_s\":%.3f,\"explore_s\":%.3f,\"runs_per_hour\":%.0f,\"counters\":{",
            o.profile.c_str(), SIM_VARIANT, (unsigned long long)o.seed, (unsigned long long)finished, (unsigned long long)o.runs, nviol,
-           seen_sigs.size(), nondet, distinct_hashes.size(), wall, t_explore, t_explore > 0 ? finished * 3600.0 / t_explore : 0.0);
+           seen_sigs.size(), nondet, distinct_hashes.size(), (unsigned long long)nontrivial_runs, nontrivial_hashes.size(), wall, t_explore, t_explore > 0 ? finished * 3600.0 / t_explore : 0.0);
     bool first = true;
     for (auto& [kk, v] : total) {
         printf("%s\"%s\":%llu", first ? "" : ",", json_escape(kk).c_str(), (unsigned long long)v);
@@ -943,6 +955,11 @@ static int cmd_run(const Options& o)
         printf("%s\"%s\"", i ? "," : "", json_escape(samples[i].substr(0, 2000)).c_str());
     printf("]}\n");
     fflush(stdout);
+    if (!o.hash_file.empty()) {
+        std::ofstream hf(o.hash_file, std::ios::app);
+        for (uint64_t h : nontrivial_hashes)
+            hf << h << "\n";
+    }
     return exit_code;
 }
 
@@ -997,6 +1014,22 @@ static int cmd_replay(const Options& o)
     Replay rp;
     if (!load_replay(o.replay_file, rp)) {
         fprintf(stderr, "cannot read replay file %s\n", o.replay_file.c_str());
+        return 2;
+    }
+    if (!rp.variant.empty() && rp.variant != SIM_VARIANT) {
+        // the finding was made by the other build variant: hand over to the sibling binary
+        char self[4096];
+        ssize_t n = readlink("/proc/self/exe", self, sizeof self - 1);
+        if (n > 0) {
+            self[n] = 0;
+            std::string exe = self;
+            size_t dot = exe.rfind('.');
+            if (dot != std::string::npos) {
+                exe = exe.substr(0, dot + 1) + rp.variant;
+                execl(exe.c_str(), exe.c_str(), "--replay", o.replay_file.c_str(), "--repo", o.repo.c_str(), (char*)nullptr);
+            }
+        }
+        fprintf(stderr, "cannot start the %s variant of utapsim\n", rp.variant.c_str());
         return 2;
     }
     rp.spec.explain = true;
@@ -1134,6 +1167,12 @@ int runner_main(int argc, char** argv)
             o.dropped = next();
         else if (a == "--simplify")
             o.simplify = atoi(next().c_str());
+        else if (a == "--nontrivial-key")
+            o.nontrivial_key = next();
+        else if (a == "--hash-file")
+            o.hash_file = next();
+        else if (a == "--replay-tag")
+            o.replay_tag = next();
         else {
             fprintf(stderr, "unknown argument %s\n", a.c_str());
             return 2;
